@@ -129,21 +129,27 @@ def run(ctx):
                         "file-server operations are compared through the documented folding (directory = two mounted patterns = one operation)"]
     extra_known(ctx)
     known = [d for d in oc.DEVIATIONS if d in ctx.known]
-    # (M) + vacuity guard
-    for fam in oc.FAMILIES:
-        ctx.mc("mc/MC_OpenAPIOps", consts={"OFamily": '"%s"' % fam}, label="MC " + fam)
-    if not quick:
-        ctx.mc("mc/MC_OpenAPIOps", consts={"OFamily": '"mix"', "NSvc": 1, "NMeth": 1}, label="MC mix 1x1", timeout=1500)
+    # (M) + vacuity guard + (G) enumeration.  The Gen configurations check the invariants of the MC configuration while they
+    # emit the designs, so the quick tier does not run the families twice.
     witness = {"schema.exclusive_bound_numeric": "params", "v3.trace_route_dropped": "verbs", "v3.nosecurity_inherits_api_security": "sec",
                "v3.fileserver_documents_api_security": "files", "v3.api_security_scheme_undefined": "sec", "v3.fileserver_wildcard_kept": "files",
                "v3.fileserver_param_without_schema": "files", "v3.allow_empty_value_not_query": "params", "yaml.leading_newline_dropped": "sec",
                "server.required_cookie_resets_errors": "params"}
-    for d in oc.DEVIATIONS:
-        ctx.mc_expect_violation("mc/MC_OpenAPIOps", consts={"OFamily": '"%s"' % witness[d], "Deviations": '{"%s"}' % d}, label="MC dev " + d)
-    # (G) enumerated designs
-    small = []
-    for fam in oc.FAMILIES:
-        small += oc.enumerate_designs(ctx, fam)
+    import concurrent.futures as cf
+    with cf.ThreadPoolExecutor(max_workers=6) as ex:
+        gens = [ex.submit(oc.enumerate_designs, ctx, fam, 1, 1, None, None, 3) for fam in oc.FAMILIES]
+        gs = [ex.submit(ctx.mc_expect_violation, "mc/MC_OpenAPIOps", consts={"OFamily": '"%s"' % witness[d], "Deviations": '{"%s"}' % d}, workers=2,
+                        label="MC dev " + d) for d in oc.DEVIATIONS]
+        if not quick:
+            for fam in oc.FAMILIES:
+                gs.append(ex.submit(ctx.mc, "mc/MC_OpenAPIOps", consts={"OFamily": '"%s"' % fam}, label="MC " + fam, workers=3))
+            gs.append(ex.submit(ctx.mc, "mc/MC_OpenAPIOps", consts={"OFamily": '"mix"', "NSvc": 1, "NMeth": 1}, label="MC mix 1x1", timeout=1500, workers=4))
+            gs.append(ex.submit(ctx.mc, "mc/MC_OpenAPIOps", consts={"OFamily": '"params"', "NSvc": 1, "NMeth": 2}, label="MC params 1x2", timeout=1500, workers=4))
+        for g in gs:
+            g.result()
+        small = []
+        for g in gens:
+            small += g.result()
     frac = float(os.environ.get("VERIF_FRAC") or (0.35 if quick else 1.0))
     if frac < 1.0:
         rnd = random.Random(ctx.seed)
